@@ -588,7 +588,40 @@ impl Delay {
 
     fn next(&mut self) -> Duration {
         self.current = cmp::min(self.current * 2 + self.step, self.max);
+
+        #[cfg(emit_rs_emit_verif)]
+        {
+            let divisor = verif::delay_divisor();
+
+            if divisor > 1 {
+                return self.current / divisor;
+            }
+        }
+
         self.current
+    }
+}
+
+/**
+Verification hooks.
+
+This module only exists when the crate is compiled with `--cfg emit_rs_emit_verif`. It lets external harnesses shorten the retry and idle delays of every [`Receiver`] in the process so fault scenarios complete quickly.
+*/
+#[cfg(emit_rs_emit_verif)]
+pub mod verif {
+    use std::sync::atomic::{AtomicU32, Ordering};
+
+    static DELAY_DIVISOR: AtomicU32 = AtomicU32::new(1);
+
+    /**
+    Divide every retry and idle delay requested by receivers in this process by `divisor`.
+    */
+    pub fn set_delay_divisor(divisor: u32) {
+        DELAY_DIVISOR.store(divisor, Ordering::SeqCst);
+    }
+
+    pub(crate) fn delay_divisor() -> u32 {
+        DELAY_DIVISOR.load(Ordering::SeqCst)
     }
 }
 
